@@ -18,6 +18,11 @@
 (*   [g |-> "ptr", nil, v]                      *T                         *)
 (*   [g |-> "struct", f: <<field>>]             struct, field =            *)
 (*        [name, tagged, tname, omitempty, str, dash, anon, v]             *)
+(*   [g |-> "iface", v]             a NON-NIL interface{} holding v, where *)
+(*        the static type matters (a struct field of type interface{} that *)
+(*        holds false is not "empty"; a bare value is a value of its own   *)
+(*        static type)                                                     *)
+(*   [g |-> "number", lit]          json.Number                            *)
 (* values of types with marshalling methods (the fork adds the last two):  *)
 (*   [g |-> "marsh", text, fail]    json.Marshaler: MarshalJSON returns    *)
 (*        text (or an error); the text is checked and COMPACTED into the   *)
@@ -80,7 +85,7 @@ IsEmptyGo(v) ==
     [] v.g = "tmap"  -> v.m = <<>>
     [] v.g = "number" -> v.lit = <<>>          \* a string type: empty when the string is
     [] v.g = "ptr"   -> v.nil
-    [] OTHER         -> FALSE               \* a struct is never empty
+    [] OTHER         -> FALSE               \* a struct is never empty, nor is a non-nil interface (whatever it holds)
 
 Exported(name) == name # <<>> /\ name[1] >= 65 /\ name[1] <= 90
 
@@ -90,8 +95,9 @@ Quoted(v, esc) ==
   CASE v.g = "bool"  -> Str(IF v.b THEN <<116,114,117,101>> ELSE <<102,97,108,115,101>>)
     [] v.g = "int"   -> Str(IntLit(v.i))
     [] v.g = "float" -> Str(v.lit)
-    [] v.g = "str"   -> Str(Enc(Str(GoUtf8(v.bytes)), esc))           \* the string's JSON text (escaped as the switch says) becomes the content
-    [] v.g = "ptr" /\ v.v.g \in {"bool", "int", "float", "str"}        \* a pointer to one of these: null, or the pointee quoted
+    [] v.g = "number" -> Str(IF v.lit = <<>> THEN <<48>> ELSE v.lit)    \* a Number is a string type: quoted once
+    [] v.g = "str"   -> Str(GoUtf8(Enc(Str(GoUtf8(v.bytes)), esc)))   \* the string's JSON text (escaped as the switch says) becomes the content
+    [] v.g = "ptr" /\ v.v.g \in {"bool", "int", "float", "str", "number"}        \* a pointer to one of these: null, or the pointee quoted
                      -> IF v.nil THEN Null ELSE Quoted(v.v, esc)
     [] OTHER         -> GoToJson(v, esc)                                 \* the option is ignored for other kinds
 
@@ -116,13 +122,14 @@ GoToJson(v, esc) ==
     [] v.g = "slice" -> IF v.nil THEN Null ELSE Arr([i \in 1..Len(v.e) |-> GoToJson(v.e[i], esc)])
     [] v.g = "bytes" -> IF v.nil THEN Null ELSE Str(Base64(v.b))
     [] v.g = "map"   -> IF v.nil THEN Null
-                        ELSE SortKeys(Obj([i \in 1..Len(v.m) |-> Mem(GoUtf8(v.m[i].k), GoToJson(v.m[i].v, esc))]))
-    [] v.g = "imap"  -> SortKeys(Obj([i \in 1..Len(v.m) |-> Mem(IntLit(v.m[i].k), GoToJson(v.m[i].v, esc))]))
+                        ELSE SortTop(Obj([i \in 1..Len(v.m) |-> Mem(GoUtf8(v.m[i].k), GoToJson(v.m[i].v, esc))]))
+    [] v.g = "imap"  -> SortTop(Obj([i \in 1..Len(v.m) |-> Mem(IntLit(v.m[i].k), GoToJson(v.m[i].v, esc))]))
     [] v.g = "ptr"   -> IF v.nil THEN Null ELSE GoToJson(v.v, esc)
     [] v.g = "tslice" -> IF v.nil THEN Null ELSE Arr([i \in 1..Len(v.e) |-> GoToJson(v.e[i], esc)])
     [] v.g = "tmap"  -> IF v.nil THEN Null
-                        ELSE SortKeys(Obj([i \in 1..Len(v.m) |-> Mem(GoUtf8(v.m[i].k), GoToJson(v.m[i].v, esc))]))
-    [] v.g = "number" -> Num(v.lit)
+                        ELSE SortTop(Obj([i \in 1..Len(v.m) |-> Mem(GoUtf8(v.m[i].k), GoToJson(v.m[i].v, esc))]))
+    [] v.g = "number" -> Num(IF v.lit = <<>> THEN <<48>> ELSE v.lit)    \* the empty Number is written as 0
+    [] v.g = "iface" -> GoToJson(v.v, esc)
     [] v.g = "marsh" -> [t |-> "raw", b |-> Compact(v.text, esc).out]
     [] v.g = "textm" -> Str(GoUtf8(v.text))
     [] v.g = "redir" -> GoToJson(v.v, esc)
@@ -139,6 +146,7 @@ GoFailsIn(v) == GoFails(v)
 RECURSIVE GoUnspecified(_)
 GoUnspecified(v) ==
   CASE v.g = "redir"  -> GoFailsIn(v.v) \/ GoUnspecified(v.v)
+    [] v.g = "iface"  -> GoUnspecified(v.v)
     [] v.g \in {"slice", "tslice"} -> \E i \in 1..Len(v.e) : GoUnspecified(v.e[i])
     [] v.g \in {"map", "imap", "tmap"} -> \E i \in 1..Len(v.m) : GoUnspecified(v.m[i].v)
     [] v.g = "ptr"    -> ~v.nil /\ GoUnspecified(v.v)
@@ -149,6 +157,7 @@ GoUnspecified(v) ==
 GoFails(v) ==
   CASE v.g = "marsh"  -> v.fail \/ ~Valid(v.text)
     [] v.g = "redir"  -> FALSE                \* see GoUnspecified
+    [] v.g = "iface"  -> GoFails(v.v)
     [] v.g \in {"slice", "tslice"} -> \E i \in 1..Len(v.e) : GoFails(v.e[i])
     [] v.g \in {"map", "imap", "tmap"} -> \E i \in 1..Len(v.m) : GoFails(v.m[i].v)
     [] v.g = "ptr"    -> ~v.nil /\ GoFails(v.v)
